@@ -166,6 +166,11 @@ def _predicates_one(case, impl):
     if rb != "absent" and case.get("cnTemp") is not None and not (isinstance(rb, float) and rb == float(case["cnTemp"])):
         out.append(Failure(clause="cn_trigger_first", key=f"cnTemp_readback|_run_{case['dim']}|",
                            detail=f"requested cnTemp = {case['cnTemp']} C but S.opcond.cnTemp reads back {rb}"))
+    after = run.get("cnTemp_after", "absent")
+    if after != "absent" and not (after == (None if case.get("cnTemp") is None else float(case["cnTemp"]))):
+        out.append(Failure(clause="cn_trigger_first", key=f"opcond_mutated|_run_{case['dim']}|",
+                           detail=f"cnTemp was {case.get('cnTemp')} before run() and reads {after} afterwards: the run "
+                                  f"changed the user's operating conditions"))
     _predicates_pair(case, impl, out)
     cn = case.get("cnTemp")
     if run.get("raise") or cn is None:
@@ -298,6 +303,10 @@ CNS = [-3.0, -5.0, -8.0, -12.0, 0, 0.0]
 
 
 def case_0d(rng):
+    return su.with_yaml(_case_0d(rng), su.solution_yaml(rng))
+
+
+def _case_0d(rng):
     rate = rng.choice([0.05, 0.1, 0.25])
     holds = None
     if rng.random() < 0.3:
@@ -309,6 +318,10 @@ def case_0d(rng):
 
 
 def case_1d(rng, config="shelf"):
+    return su.with_yaml(_case_1d(rng, config), su.solution_yaml(rng))
+
+
+def _case_1d(rng, config="shelf"):
     h, k, rate, steps = rng.choice(su.CAL_1D)
     dt = su.dt_1d_default(h)
     holds = None
@@ -427,7 +440,43 @@ def cases_cn_below_end():
                  yaml={"VISF": {"t_vac_start": 0.1, "t_vac_duration": 0.1, "p_vac": 10}})]
 
 
+def cases_hold_below_cn():
+    """a HOLD whose temperature lies below cnTemp: the lagging product crosses cnTemp while the shelf is on the
+    hold - the trigger must fire then, not at the end of the hold"""
+    a = dict(dim="0D", config="shelf", k_s0=50, t_tot=7200 + 2500, start=20, stop=-50, rate=0.1, holds=[[-10.0, 7200]],
+             cnTemp=-8.0, Frand=None, kind="hold-below-cnTemp")
+    h = 0.05
+    dt = su.dt_1d_default(h)
+    b = dict(dim="1D", config="shelf", height=h, k_s0=2000, t_tot=(4700 + 1200) * dt + 1200, start=20, stop=-50, rate=0.5,
+             holds=[[-10.0, 1200]], cnTemp=-8.0, Frand=None, kind="hold-below-cnTemp")
+    c = dict(a, holds=[[-6.0, 3600]], cnTemp=-5.0, t_tot=3600 + 2500, yaml={"solution": {"T_eq": 3.82}})
+    return [a, b, c]
+
+
+def cases_array_cntemp():
+    """cnTemp given as a numpy array (0-d, or a 1-element row of a table) and a SECOND solver call on the same
+    OperatingConditions object (re-run; sequential repetitions): every call must see the requested value, and the
+    operating conditions must be unchanged by a run"""
+    p0 = dict(dim="0D", config="shelf", k_s0=100, t_tot=3000, start=20, stop=-50, rate=0.1, holds=None, Frand=None)
+    again = dict(t_tot=3000, start=20, stop=-50, rate=0.1, holds=None, Frand=None, edit="rerun-same-opcond")
+    out = []
+    for kind in ("np0d", "np1"):
+        out.append(dict(p0, cnTemp=-8.0, cn_kind=kind, kind=f"array-cnTemp:{kind}:rerun",
+                        runs=[dict(again, cnTemp=-8.0, cn_kind=kind)]))
+    out.append(dict(p0, cnTemp=-5.0, cn_kind="np1", Nrep=2, how="sequential", kind="array-cnTemp:np1:Nrep=2"))
+    h = 0.05
+    dt = su.dt_1d_default(h)
+    p1 = dict(dim="1D", config="shelf", height=h, k_s0=2000, t_tot=5000 * dt, start=20, stop=-50, rate=0.5, holds=None,
+              Frand=None)
+    out.append(dict(p1, cnTemp=-8.0, cn_kind="np0d", kind="array-cnTemp:np0d:rerun",
+                    runs=[dict(t_tot=5000 * dt, start=20, stop=-50, rate=0.5, holds=None, Frand=None, cnTemp=-8.0,
+                               cn_kind="np0d", edit="rerun-same-opcond")]))
+    return out
+
+
 def cases(rng, tier):
+    for c in cases_hold_below_cn() + cases_array_cntemp():
+        yield c
     for c in cases_long_process(tier):
         yield c
     for c in cases_cn_below_end():
